@@ -157,6 +157,8 @@ def run(ctx):
                 "x-1d": (np.asarray(dy(n)), np.asarray(ts)), "x-list": (X.tolist(), list(ts)), "x-none": (None, ts),
                 "extra-feature": (np.concatenate([X, X[:, :1]], axis=1), np.asarray(ts)),
                 "row-vector(1,n)": (X, np.asarray(ts)[None, :]),
+                "column-form-too-wide": (np.concatenate([Xt, X[:, :1]], axis=1), None),
+                "column-form-too-narrow": (X[:, :max(d - 1, 0)], None),
             }
             for fname, (xv, tv) in forms.items():
                 for cast in (True, False):
@@ -255,6 +257,7 @@ def run(ctx):
                 for what, call in (("both-time-and-multi_time", lambda: f(Xq, time=1.0, multi_time=[0.0, 1.0], **kw)),
                                    ("wrong-length", lambda: f(Xq, np.asarray([0.0, 1.0, 2.0]), **kw)),
                                    ("wrong-features", lambda: f(np.concatenate([Xq, Xq], axis=1), tq, **kw)),
+                                   ("wrong-features-column-form", lambda: f(np.concatenate([Xqt, Xq], axis=1), **kw)),
                                    ("missing-time", lambda: f(Xq, **kw))):
                     o = enc.outcome(call)
                     real_calls += 1
